@@ -33,6 +33,8 @@ type Ledger struct {
 	Priv   map[string]map[string][]byte // private data
 	Events []*pb.ChaincodeEvent
 	Strict bool // "CouchDB rules": refuse empty keys on delete and keys starting with '_'
+	// FailGet: fault injection - the next point read of a key listed here fails (once per count)
+	FailGet map[string]int
 }
 
 func NewLedger() *Ledger {
@@ -160,6 +162,13 @@ func (s *Stub) GetState(key string) ([]byte, error) {
 	s.mu.Lock()
 	s.ReadKeys = append(s.ReadKeys, key)
 	s.mu.Unlock()
+	s.L.mu.Lock()
+	if s.L.FailGet[key] > 0 {
+		s.L.FailGet[key]--
+		s.L.mu.Unlock()
+		return nil, errors.New("ledger read failed (injected)")
+	}
+	s.L.mu.Unlock()
 	return s.L.get(key), nil
 }
 
